@@ -93,6 +93,11 @@ def run(ctx):
             for line in open(out):
                 c = json.loads(line)
                 _replay_byte_case(ctx, TLV, TlvParseException, c, expected)
+        # ---------------- BLE pairing-reply fragment reassembly on top of the codec (client._pairing_char_write)
+        out = os.path.join(tmp, "blefrag.ndjson")
+        ctx.tlc("codec/BleFrag_Cases", "BleFrag_Cases.cfg", env={"CASES_OUT": out}, workers=4,
+                label="BLE pairing fragment reassembly + case export")
+        _replay_blefrag(ctx, [json.loads(l) for l in open(out)])
         # ---------------- (C) code -> spec on random lists
         nrec = ctx.pick(400, 4000)
         recs = []
@@ -211,3 +216,80 @@ def _replay_byte_case(ctx, TLV, TlvParseException, c, expected):
     ctx.trace_ok()
     if len(inp) == 5 and exp["verdict"] == "ok" and len(ctx.samples) < 4:
         ctx.sample({"byte_case": c})
+
+
+def _replay_blefrag(ctx, cases):
+    """Every (reply length, fragment size, empty-last-fragment) plan exported by BleFrag is played by a scripted
+    accessory against the real _pairing_char_write (char_write is the boundary that is replaced)."""
+    import asyncio
+    import aiohomekit.controller.ble.client as bc
+    from aiohomekit.protocol.tlv import TLV
+    from harness.refacc import tlv as RT
+
+    def blob_of(l):
+        if l == 0:
+            return b""
+        for m in range(max(0, l - 12), l + 1):
+            b = RT.enc([(6, b"\x02"), (3, bytes((i * 7 + 1) % 251 for i in range(m)))]) if m else RT.enc([(6, b"\x02")])
+            if len(b) == l:
+                return b
+        return None
+
+    async def one(c):
+        blob = blob_of(c["l"])
+        if blob is None:
+            return None
+        writes = []
+        it = iter(c["pieces"])
+
+        async def fake_char_write(client, ek, dk, handle, iid, body):
+            writes.append(bytes(body))
+            kind, off, ln = next(it)
+            part = blob[off:off + ln]
+            if kind == "whole":
+                return blob
+            return RT.enc([(12 if kind == "data" else 13, part)])
+        orig = bc.char_write
+        bc.char_write = fake_char_write
+        try:
+            client = type("C", (), {"address": "00:00"})()
+            try:
+                got = await bc._pairing_char_write(client, None, 1, [(6, b"\x01")])
+                res = ("done", got)
+            except ValueError as ex:
+                res = ("error", str(ex))
+            except Exception as ex:  # noqa: BLE001
+                res = ("other", f"{type(ex).__name__}: {ex}")
+        finally:
+            bc.char_write = orig
+        return blob, writes, res
+
+    loop = asyncio.new_event_loop()
+    try:
+        for c in cases:
+            r = loop.run_until_complete(one(c))
+            if r is None:
+                continue
+            blob, writes, (kind, got) = r
+            ctx.case(("blefrag", c["l"], c["f"], c["le"]))
+            replay = {"kind": "blefrag", "case": c}
+            want = {int(t): bytes(v) for t, v in RT.dec(blob)}
+            if kind != c["outcome"]:
+                ctx.violation(f"BLE pairing reply of {c['l']} bytes in fragments of {c['f']} (empty last fragment: {c['le']}): "
+                              f"outcome {kind} ({got if kind != 'done' else ''}), specification says {c['outcome']}", replay)
+                continue
+            if kind == "done":
+                have = {int(t): bytes(v) for t, v in got.items()}
+                if have != want:
+                    ctx.violation(f"BLE pairing reply of {c['l']} bytes in fragments of {c['f']} (empty last fragment: {c['le']}) "
+                                  f"reassembled to items {[(t, len(v)) for t, v in have.items()]}, sent {[(t, len(v)) for t, v in want.items()]}", replay)
+                    continue
+                acks = sum(1 for w in writes[1:] if w == b"\x0c\x00")
+                if acks != c["acks"] or len(writes) != c["acks"] + 1:
+                    ctx.violation(f"BLE pairing reply reassembly wrote {len(writes)} times with {acks} acknowledgements, specification: "
+                                  f"{c['acks']} acknowledgements", replay)
+                    continue
+            ctx.trace_ok()
+        ctx.sample({"blefrag_case": cases[len(cases) // 2]})
+    finally:
+        loop.close()
